@@ -84,6 +84,11 @@ func (c *declChecker) check() []error {
 			for _, argArg := range descrAtom.Args[1:] {
 				c.checkStringConstant(argArg)
 			}
+		case ast.DescrMode:
+			// Rule checking and type inference index the arguments of an atom by the positions of a mode.
+			if len(descrAtom.Args) != len(p.Args) {
+				c.errs = append(c.errs, fmt.Errorf("mode %v must have one entry per argument of %v", descrAtom, p))
+			}
 		default:
 			// We ignore unknown descr atoms.
 		}
